@@ -131,6 +131,9 @@ def run(ctx, crate):
                         if not extra and len(b.loops_of(s.bb)) == 2:
                             merged = True
                             shape.append("merge-per-key")
+            edited_rc = S.mutable_borrows_of_result(b, rc) if w.style != "accumulator" else []
+            if edited_rc:
+                merged = False
             obs.append(Ob("R03.recurse", w.path, "result of the recursion merged per key", merged, site=rc.where,
                           expected="for (k, v) in analyze_dir(sub): entry(k).or_insert(..).append/extend(v), unconditionally",
                           found="merged_per_key=%s" % merged))
